@@ -146,6 +146,9 @@ class DocutilsRenderer(RendererProtocol):
         }
         # mapping of section slug to (line, id, implicit_text)
         self._heading_slugs: dict[str, tuple[int | None, str, str]] = {}
+        # inventories are (lazily) loaded per render,
+        # since they depend on the configuration (and files) at the time of the render
+        self._inventories = None
 
     @property
     def sphinx_env(self) -> BuildEnvironment | None:
